@@ -366,8 +366,61 @@ fn run_items(w: &Work, canon: &[Out], items: &[Item]) -> Stats {
     out.into_inner().unwrap()
 }
 
+/// One fresh-process run of the real binary for input `si` under environment number `e` (0 = canonical): everything
+/// that may differ between two processes is derived from (seed, si, e) - hash key, directory order, clock, pid,
+/// environment variables, file creation order and modification times, and (odd e) an earlier conversion of another
+/// input sharing cwd and TMPDIR. Used by the batch and by --replay.
+fn proc_run(w: &Work, seed: u64, si: usize, e: u64) -> (cli::CliRun, Option<Vec<u8>>, u64, u64) {
+    let mut rng = Rng::derive(seed, "det-proc", (si as u64) << 16 | e);
+    let (entropy, dirperm) = if e == 0 { (0, 0) } else { (rng.next_u64(), rng.next_u64() | 1) };
+    let sc = Scratch::new("detp");
+    let top = sc.path.clone();
+    let wd = top.join("w");
+    let _ = std::fs::create_dir_all(&wd);
+    // the files are created in an environment-dependent order and get environment-dependent modification
+    // times: "the same file contents" says nothing about either
+    let mut order: Vec<usize> = (0..w.sets[si].files.len()).collect();
+    for i in 0..order.len().saturating_sub(1) {
+        let j = i + (rng.next_u64() % (order.len() - i) as u64) as usize;
+        order.swap(i, j);
+    }
+    for k in order {
+        let (n, b) = &w.sets[si].files[k];
+        let _ = std::fs::write(wd.join(n), b);
+        if e != 0 {
+            if let Ok(f) = std::fs::File::options().write(true).open(wd.join(n)) {
+                let _ = f.set_modified(std::time::UNIX_EPOCH + std::time::Duration::from_secs(1_000_000_000 + rng.next_u64() % 700_000_000));
+            }
+        }
+    }
+    let input = wd.join(&w.sets[si].start);
+    let output = top.join("out.rs");
+    let _ = std::fs::create_dir_all(top.join("tmp"));
+    let plan = PlanSpec { root: top.clone(), input: input.clone(), output: output.clone(), dir: wd.clone(), entropy: (entropy, 0x0d), dirperm, dirorder: vec![], faults: vec![], stderr_full: false, rust_log: [None, Some("debug"), Some("trace")][(entropy % 3) as usize], tmpdir: Some(top.join("tmp")), clock_base: if entropy == 0 { 0 } else { 1_000_000_000 + entropy % 3_000_000_000 }, pid: if dirperm == 0 { 0 } else { 2 + dirperm % 4_000_000 }, extra_env: if entropy == 0 { vec![] } else { vec![("USER".into(), format!("user{}", entropy % 97)), ("HOME".into(), format!("/home/u{}", entropy % 89)), ("LANG".into(), ["C", "de_DE.UTF-8", "ja_JP.UTF-8"][(entropy % 3) as usize].into()), ("TZ".into(), ["UTC", "Asia/Tokyo", "America/St_Johns"][(entropy / 3 % 3) as usize].into()), ("HOSTNAME".into(), format!("host-{}", entropy % 1009)), ("NO_COLOR".into(), "1".into())] } };
+    if e % 2 == 1 {
+        // process-level history: another input is converted first by a process sharing cwd and TMPDIR
+        // (anything the tool keeps on disk between runs would show)
+        let oi = (si + 1 + e as usize) % w.sets.len();
+        let w0 = top.join("w0");
+        let _ = std::fs::create_dir_all(&w0);
+        for (n, b) in &w.sets[oi].files {
+            let _ = std::fs::write(w0.join(n), b);
+        }
+        let in0 = w0.join(&w.sets[oi].start);
+        let out0 = top.join("warm.rs");
+        let p0 = PlanSpec { input: in0.clone(), output: out0.clone(), dir: w0.clone(), ..plan.clone() };
+        let a0 = vec!["-i".to_string(), in0.to_string_lossy().to_string(), "-o".to_string(), out0.to_string_lossy().to_string()];
+        let _ = cli::run_zeep(&top, &top, &a0, &p0, "p0");
+    }
+    let args = vec!["-i".to_string(), input.to_string_lossy().to_string(), "-o".to_string(), output.to_string_lossy().to_string()];
+    let run = cli::run_zeep(&top, &top, &args, &plan, "p");
+    let bytes = std::fs::read(&output).ok();
+    (run, bytes, entropy, dirperm)
+}
+
 // process tier (D3): the unmodified binary in fresh processes under (entropy, directory order)
 struct ProcFinding {
+    env: u64,
     set: usize,
     entropy: u64,
     dirperm: u64,
@@ -397,37 +450,7 @@ fn process_tier(w: &Work, tier: &str, seed: u64) -> (u64, Vec<ProcFinding>, Vec<
                     break;
                 }
                 let (si, e) = jobs[j];
-                let mut rng = Rng::derive(seed, "det-proc", (si as u64) << 16 | e);
-                let (entropy, dirperm) = if e == 0 { (0, 0) } else { (rng.next_u64(), rng.next_u64() | 1) };
-                let sc = Scratch::new("detp");
-                let top = sc.path.clone();
-                let wd = top.join("w");
-                let _ = std::fs::create_dir_all(&wd);
-                for (n, b) in &w.sets[si].files {
-                    let _ = std::fs::write(wd.join(n), b);
-                }
-                let input = wd.join(&w.sets[si].start);
-                let output = top.join("out.rs");
-                let _ = std::fs::create_dir_all(top.join("tmp"));
-                let plan = PlanSpec { root: top.clone(), input: input.clone(), output: output.clone(), dir: wd.clone(), entropy: (entropy, 0x0d), dirperm, dirorder: vec![], faults: vec![], stderr_full: false, rust_log: [None, Some("debug"), Some("trace")][(entropy % 3) as usize], tmpdir: Some(top.join("tmp")), clock_base: if entropy == 0 { 0 } else { 1_000_000_000 + entropy % 3_000_000_000 }, pid: if dirperm == 0 { 0 } else { 2 + dirperm % 4_000_000 } };
-                if e % 2 == 1 {
-                    // process-level history: another input is converted first by a process sharing cwd and TMPDIR
-                    // (anything the tool keeps on disk between runs would show)
-                    let oi = (si + 1 + e as usize) % w.sets.len();
-                    let w0 = top.join("w0");
-                    let _ = std::fs::create_dir_all(&w0);
-                    for (n, b) in &w.sets[oi].files {
-                        let _ = std::fs::write(w0.join(n), b);
-                    }
-                    let in0 = w0.join(&w.sets[oi].start);
-                    let out0 = top.join("warm.rs");
-                    let p0 = PlanSpec { input: in0.clone(), output: out0.clone(), dir: w0.clone(), ..plan.clone() };
-                    let a0 = vec!["-i".to_string(), in0.to_string_lossy().to_string(), "-o".to_string(), out0.to_string_lossy().to_string()];
-                    let _ = cli::run_zeep(&top, &top, &a0, &p0, "p0");
-                }
-                let args = vec!["-i".to_string(), input.to_string_lossy().to_string(), "-o".to_string(), output.to_string_lossy().to_string()];
-                let run = cli::run_zeep(&top, &top, &args, &plan, "p");
-                let bytes = std::fs::read(&output).ok();
+                let (run, bytes, entropy, dirperm) = proc_run(w, seed, si, e);
                 results.lock().unwrap().insert((si, e), (run.exit_code, bytes, entropy, dirperm));
             });
         }
@@ -441,6 +464,7 @@ fn process_tier(w: &Work, tier: &str, seed: u64) -> (u64, Vec<ProcFinding>, Vec<
             let r = &results[&(*si, e)];
             if r.0 != base.0 || r.1 != base.1 {
                 findings.push(ProcFinding {
+                    env: e,
                     set: *si,
                     entropy: r.2,
                     dirperm: r.3,
@@ -513,26 +537,13 @@ fn main() {
         if v["scenario"]["tier"].as_str() == Some("process") {
             // process-tier replay: rerun the two processes
             let si = w.sets.iter().position(|s| Some(s.name.as_str()) == v["scenario"]["input_set"].as_str());
-            let (Some(si), Some(e), Some(d)) = (si, v["scenario"]["entropy"].as_u64(), v["scenario"]["dirperm"].as_u64()) else {
+            let (Some(si), Some(e), Some(seed)) = (si, v["scenario"]["environment_index"].as_u64(), v["scenario"]["seed"].as_u64()) else {
                 eprintln!("HARNESS-ERROR: bad process replay file");
                 std::process::exit(2);
             };
-            let run = |entropy: u64, dirperm: u64| {
-                let sc = Scratch::new("detp");
-                let top = sc.path.clone();
-                let wd = top.join("w");
-                let _ = std::fs::create_dir_all(&wd);
-                for (n, b) in &w.sets[si].files {
-                    let _ = std::fs::write(wd.join(n), b);
-                }
-                let input = wd.join(&w.sets[si].start);
-                let output = top.join("out.rs");
-                let plan = PlanSpec { root: top.clone(), input: input.clone(), output: output.clone(), dir: wd.clone(), entropy: (entropy, 0x0d), dirperm, dirorder: vec![], faults: vec![], stderr_full: false, rust_log: [None, Some("debug"), Some("trace")][(entropy % 3) as usize], tmpdir: Some(top.join("tmp")), clock_base: if entropy == 0 { 0 } else { 1_000_000_000 + entropy % 3_000_000_000 }, pid: if dirperm == 0 { 0 } else { 2 + dirperm % 4_000_000 } };
-                let a = vec!["-i".to_string(), input.to_string_lossy().to_string(), "-o".to_string(), output.to_string_lossy().to_string()];
-                let r = cli::run_zeep(&top, &top, &a, &plan, "p");
-                (r.exit_code, std::fs::read(&output).ok())
-            };
-            let (a, b) = (run(0, 0), run(e, d));
+            let a = proc_run(&w, seed, si, 0);
+            let b = proc_run(&w, seed, si, e);
+            let (a, b) = ((a.0.exit_code, a.1), (b.0.exit_code, b.1));
             if a != b {
                 println!("REPLAY property={PROPERTY} class=process-output-differs exit {:?}/{:?}", a.0, b.0);
                 println!("REPLAY-REPRODUCED");
@@ -660,7 +671,7 @@ fn main() {
             class: "process-output-differs".into(),
             key: "process-output-differs:environment".into(),
             detail: format!("input {}: {} (the environments differ in hash key, directory order, clock, pid, RUST_LOG and, for odd ones, an earlier conversion sharing cwd and TMPDIR) [{} differing (input, environment) pairs]", w.sets[pf.set].name, pf.detail, proc_findings.len()),
-            scenario: json!({"tier": "process", "input_set": w.sets[pf.set].name, "entropy": pf.entropy, "dirperm": pf.dirperm}),
+            scenario: json!({"tier": "process", "input_set": w.sets[pf.set].name, "environment_index": pf.env, "seed": report.seed, "entropy": pf.entropy, "dirperm": pf.dirperm}),
             tape: json!([["entropy", "u64", pf.entropy], ["dirperm", "u64", pf.dirperm]]),
             observations: json!({"detail": pf.detail}),
             trace: json!({}),
